@@ -288,7 +288,7 @@ class Gen(object):
         if self.syntax_only:
             kinds += ['syntax', 'syntax']
         if getattr(self, 'calls', False):
-            kinds += ['callable', 'callable', 'callable']
+            kinds += ['callable'] * (6 if getattr(self, 'more', False) else 3)
         if getattr(self, 'events', False):
             kinds += ['event', 'event']
         if getattr(self, 'ports', False):
@@ -463,6 +463,12 @@ class Gen(object):
             kinds += ['self_attr', 'self_read', 'self_op', 'self_relate', 'self_relate', 'self_relate', 'self_select']
         if getattr(self, 'events', False):
             kinds += ['event'] * 5
+        if getattr(self, 'more', False):
+            # real literals and real-typed variables, creation without a variable, copies of instance handles and of
+            # instance sets, assignments to parameters
+            kinds += ['real', 'real', 'create_nv', 'handle_copy', 'handle_copy']
+            if self.home in ('func', 'bridge', 'op'):
+                kinds += ['param_write']
         if getattr(self, 'arrays', False):
             # elements of an array-valued attribute (Items of A) and of an array-valued parameter / event data item (vec)
             if la or self.home in SELF_HOMES:
@@ -484,6 +490,37 @@ class Gen(object):
             self.scopes.pop()
             self.ok.pop()
             return body
+        if k == 'real':
+            R = lambda: {'t': 'real', 'v': r.choice(['1.5', '0.25', '10.0', '007.50', '.5', '2.', '1e3', '3.25f', '2.0L', '0.00001'])}
+            rv = self.vars_of('real')
+            atom = lambda: V(r.choice(rv)) if rv and r.random() < 0.5 else R()
+            e = r.choice([atom, lambda: Bin(r.choice(['+', '-', '*']), atom(), r.choice([R, lambda: I(r.randint(1, 9))])()),
+                          lambda: Un('-', atom()), lambda: self.maybe_paren(Bin('*', atom(), atom()))])()
+            out = [Assign(V(r.choice(rv)), e) if rv and r.random() < 0.4 else assign_new('real', 'rv', e)]
+            if r.random() < 0.5:
+                out.append(assign_new('bool', 'rb', Bin(r.choice(['<', '>=', '==']), V(r.choice(self.vars_of('real'))), R())))
+            return out
+        if k == 'create_nv':
+            return {'t': 'create_nv', 'k': r.choice(['A', 'B', 'P'])}
+        if k == 'param_write':
+            return Assign({'t': 'param', 'n': 'x'}, intv())
+        if k == 'handle_copy':
+            li = self.live_insts()
+            sets = [(n, t[4:]) for sc in self.scopes for n, t in sc.items() if t.startswith('set:')]
+            if li and (not sets or r.random() < 0.6):
+                n, c = r.choice(li)
+                name = self.fresh('inst:' + c, 'h')
+                self.ok[-1].add(name)
+                out = [Assign(V(name), V(n))]
+                if c in ATTRS and r.random() < 0.6:
+                    a, t = r.choice(sorted(ATTRS[c].items()))
+                    out.append(assign_new(t, 'hc', Field(V(name), a)))
+                return out
+            if sets:
+                n, c = r.choice(sets)
+                name = self.fresh('set:' + c, 'hs')
+                return [Assign(V(name), V(n)), assign_new('int', 'hn', Un('cardinality', V(name)))]
+            return None
         if k in ('attr_array', 'param_array'):
             idx = lambda h, e: {'t': 'index', 'h': h, 'e': e}
             anyidx = lambda: I(r.randint(0, 3)) if r.random() < 0.6 else intv()
